@@ -834,6 +834,9 @@ func c12(c *ctx) {
 	for k := 0; k < 3; k++ {
 		c12lateConnection(c, k)
 	}
+	for k := 0; k < 2; k++ {
+		c12closeWhileAdding(c, k)
+	}
 	for v := 0; v < 3; v++ {
 		sz := 6 << 20
 		if c.thorough() {
